@@ -22,7 +22,7 @@ ASSUMPTIONS = ["distance = lower bound from the orthogonality residual (|R'R-I|/
                "an invalid 4x4 array given to UnitQuaternion is also a legal N x 4 array of quaternions: there the oracle is 'raises or holds unit quaternions'"]
 
 CLASSES = ["SO2", "SE2", "SO3", "SE3", "UQ3", "UQ4", "Twist2", "Twist3"]
-DEFECTS = ["none", "noise", "reflect", "swap", "scale", "lastrow", "algebra", "shape"]
+DEFECTS = ["none", "noise", "reflect", "swap", "scale", "wholescale", "lastrow", "algebra", "shape", "inplace"]
 CONTAINERS = ["bare", "list1", "tuple1", "valid_bad", "bad_valid", "valid_bad_valid"]
 REJECT = 1.05e-6      # the statement: every array whose distance from the group exceeds 1e-6 is rejected
 ACCEPT = 2e-15       # (distance lower bound, see group_distance) values produced by primitive constructors are accepted
@@ -59,7 +59,7 @@ def gen_pred_cells(tier):
     m3 = {"rot": {"axis": [0.3, -0.5, 0.8], "angle": 1.1, "via": "rod"}, "t": [1.0, -2.0, 3.0]}
     m2 = {"angle": 0.7, "t": [1.0, -2.0]}
     pat = [0.31, -0.72, 0.55, 0.18, -0.93, 0.44, 0.67, -0.25, 0.81, -0.36, 0.59, 0.12, -0.48, 0.77, -0.64, 0.29]
-    for d in ["none", "noise", "reflect", "swap", "scale", "lastrow"]:
+    for d in ["none", "noise", "reflect", "swap", "scale", "wholescale", "lastrow"]:
         for mag in (0.0, 3e-6, 1e-4, 0.3):
             for i in range(4):
                 for src in ("ref", "lib"):
@@ -72,7 +72,7 @@ def s_pred():
         "kind": st.just("pred"), "m3": gens.pose3(t_hi=3, lo_exp=-12), "m2": gens.pose2(t_hi=3),
         "mag": st.one_of(gens.logmag(-12, 0), gens.logmag(-5, 0), st.just(0.0)),
         "pattern": st.lists(gens.fl(-1, 1), min_size=16, max_size=16),
-        "defect": st.sampled_from(["none", "noise", "reflect", "swap", "scale", "lastrow"]),
+        "defect": st.sampled_from(["none", "noise", "reflect", "swap", "scale", "wholescale", "lastrow"]),
         "i": st.integers(0, 3), "j": st.integers(0, 3),
         "vec": st.lists(st.one_of(gens.fl(-1, 1), st.just(0.0)), min_size=2, max_size=6),
         "vmag": st.one_of(gens.logmag(-6, 6), st.just(1.0)),
@@ -138,6 +138,13 @@ def corrupt(M, case, dim, se):
         return M, True
     if d == "scale":
         M[:n, :n] *= (1.0 + mag)
+        return M, True
+    if d == "wholescale":
+        # the whole array times a factor (homogeneous scale): 2, 1/2, 1 + mag, and -1 where that keeps the determinant positive
+        k = [2.0, 0.5, 1.0 + mag, 1.0 + mag, -1.0 if (n % 2 == 0 and not se) else 3.0][case["j"] % 5]
+        return M * k, True
+    if d == "inplace":
+        M[:n, i] = -M[:n, i]            # as 'reflect'; the constructor check first validates the array, then it is changed in place
         return M, True
     if d == "lastrow":
         if not se:
@@ -278,8 +285,24 @@ def _ctor(case):
         arg, nbad, ngood = [bad.copy(), good.copy()], 1, 1
     else:
         arg, nbad, ngood = [good.copy(), bad.copy(), good.copy()], 1, 2
-    if kind == "uq4" and cont != "bare" and False:
-        pass
+    if case["defect"] == "inplace":
+        # history on one array object: it is valid and accepted once, then modified in place and supplied again
+        buf = good.copy()
+        try:
+            cls(buf)
+        except Exception:  # noqa
+            pass
+        buf[...] = bad
+        if cont == "bare":
+            arg = buf
+        elif cont in ("list1", "tuple1"):
+            arg = [buf] if cont == "list1" else (buf,)
+        elif cont == "valid_bad":
+            arg = [good.copy(), buf]
+        elif cont == "bad_valid":
+            arg = [buf, good.copy()]
+        else:
+            arg = [good.copy(), buf, good.copy()]
     obj = None
     try:
         obj = cls(arg)
@@ -334,6 +357,13 @@ def _pred(case):
                     continue
                 r = bool(r)
                 if d > REJECT:
+                    # the answer belongs to the values, not to the array object: valid -> accepted, then changed in place -> rejected
+                    G = good.copy()
+                    okh, _ = c.lib(nm, (lambda: f(G)) if nm == "isR" else (lambda: f(G, check=True)))
+                    G[...] = M
+                    okh2, rh = c.lib(nm, (lambda: f(G)) if nm == "isR" else (lambda: f(G, check=True)))
+                    if okh and okh2:
+                        c.true(nm + "/rejects_after_inplace_change", bool(rh) is False, "%s accepted an array that was valid when first tested and was then changed in place (distance %.3g)" % (nm, d), distance=d, pred=nm)
                     c.true(nm + "/rejects", r is False, "%s accepted a matrix at distance %.3g (%s)" % (nm, d, case["defect"]), distance=d, reflection=case["defect"] in ("reflect", "swap"), pred=nm)
                 elif d <= ACCEPT:
                     c.true(nm + "/accepts", r is True, "%s rejected a valid matrix (distance %.3g)" % (nm, d), distance=d, pred=nm)
@@ -471,7 +501,7 @@ def _pred(case):
 def classify(case):
     k = case["kind"]
     lab = {"kind:" + k: True, "defect:" + case["defect"]: True}
-    refl = case["defect"] in ("reflect", "swap")
+    refl = case["defect"] in ("reflect", "swap", "inplace", "wholescale")
     midmag = 1e-9 <= case["mag"] <= 1e-3 and case["defect"] in ("noise", "scale", "lastrow", "algebra")
     if k == "ctor":
         mixed = case["container"] in ("valid_bad", "bad_valid", "valid_bad_valid")
